@@ -393,6 +393,38 @@ pub fn run(rc: &RunCtx) -> Outcome {
             });
         }
     }
+    // program-level shrinking of up to three violation groups: structural reduction of the declaration,
+    // keeping it on the same side of the rule predicate and keeping the disagreement (isolated re-check)
+    if std::env::var("BBV_NO_SHRINK").is_err() {
+        let mut done = std::collections::BTreeSet::new();
+        for v in violations.iter_mut() {
+            if done.len() >= 3 || !done.insert(v.sig.clone()) {
+                continue;
+            }
+            let layout: Layout = match serde_json::from_value(v.replay["layout"].clone()) {
+                Ok(l) => l,
+                Err(_) => continue,
+            };
+            let want_accept = v.replay["expect_accept"].as_bool().unwrap_or(false);
+            let mp = v.replay["macro_profile"].as_str().unwrap_or("dev").to_string();
+            let (small, steps, log) = crate::shrink::reduce(&layout, 30, |cand| {
+                if layout_verdict(cand).is_valid() != want_accept || matches!(layout_verdict(cand), Verdict::Unspecified(_)) {
+                    return false;
+                }
+                let src = render_layout(cand, &ro);
+                check_isolated(rc, &src, None, &mp).is_empty() != want_accept
+            });
+            if steps > 0 && !log.is_empty() {
+                let src = render_layout(&small, &ro);
+                v.replay["original_source"] = v.replay["source"].clone();
+                v.replay["source"] = json!(src);
+                v.replay["layout"] = json!(small);
+                v.replay["verdict"] = json!(format!("{:?}", layout_verdict(&small)));
+                v.replay["program_shrinking"] = json!({"candidates_compiled": steps, "accepted_steps": log});
+                v.summary = format!("{}\nreduced to:\n{}", v.summary.split('\n').next().unwrap_or(""), src);
+            }
+        }
+    }
     let boundary = decls.iter().filter(|d| d.boundary).count() as u64;
     let mut samples: Vec<Value> = Vec::new();
     for d in decls.iter().filter(|d| d.verdict.is_invalid()).take(3) {
